@@ -228,7 +228,10 @@ theorem repairValue_steps (env : Env) (sch : Schema) (k : Str) (v : Val) :
             · exact Steps.nil v
             · have : chainOf sch k = ch.cs := by simp [chainOf, hg]
               rw [this]
-              exact loop_steps env ch.cs ch.cs v (fun _ h => h)
+              simp only [settle]
+              split
+              · exact Steps.nil v
+              · exact loop_steps env ch.cs ch.cs v (fun _ h => h)
 
 theorem repairValue_nil_eq (env : Env) (sch : Schema) (k : Str) (v : Val)
     (h : (repairValue env v (sch.get k) true).2 = []) : (repairValue env v (sch.get k) true).1 = v := by
@@ -321,173 +324,194 @@ theorem skel_nodes (env : Env) (sch : Schema) : ∀ ns : List Node,
     rw [skel_node env sch n, skel_nodes env sch ns]
 end
 
-/-! ### idempotence of the loop -/
+/-! ### idempotence (after commit 9d272b4: a chain of repairs that returns to its start is dropped) -/
 
-theorem loop_append (env : Env) : ∀ (xs ys : List Constraint) (v : Val),
-    loop env (xs ++ ys) v = ((loop env ys (loop env xs v).1).1, (loop env xs v).2 ++ (loop env ys (loop env xs v).1).2)
-  | [], ys, v => by simp [loop]
-  | c :: xs, ys, v => by
-    simp only [List.cons_append, loop]
-    cases ha : attempt env v c with
-    | none => simp only; exact loop_append env xs ys v
-    | some r =>
-      obtain ⟨w, e⟩ := r
-      simp only [loop_append env xs ys w, List.cons_append]
-
-/-- R2: once the value is the single match `U` of some ENUM of the chain, no later constraint of a
-cycle-free chain turns it into a different text. -/
-theorem loop_from_match {env : Env} {chain : List Constraint} {s0 U : Str} {B : List Str}
-    (hB : Constraint.enum B ∈ chain) (hU : ciMatches env B s0 = [U]) (hnc : NoCycle env chain s0) :
-    ∀ (post : List Constraint), (∀ c ∈ post, c ∈ chain) → ∀ y, (loop env post (.str U)).1 = .str y → y = U
-  | [], _, y, h => by simp [loop] at h; exact h.symm
-  | c :: post, hsub, y, h => by
-    have hlU : env.lower U = env.lower s0 := (ciMatches_single hU).2.1
-    simp only [loop] at h
-    cases ha : attempt env (.str U) c with
+/-- On the texts of one lower-case class a constraint either maps everything to one text (an ENUM
+with a single case-insensitive match) or changes nothing; `lastConst` is the last such text in the
+chain, if any. -/
+def lastConst (env : Env) : List Constraint → Str → Option Str
+  | [], _ => none
+  | c :: cs, s =>
+    match lastConst env cs s with
+    | some m => some m
     | none =>
-      rw [ha] at h
-      exact loop_from_match hB hU hnc post (fun c' hc' => hsub c' (List.mem_cons_of_mem _ hc')) y h
-    | some r =>
-      obtain ⟨w, e⟩ := r
-      rw [ha] at h
-      simp only at h
-      cases c with
-      | enum C =>
-        simp only [attempt] at ha
-        obtain ⟨s', X, hv, hw, _, hs, hm⟩ := enumCasefold_some ha
-        cases hv
-        have hm0 : ciMatches env C s0 = [X] := by rw [← ciMatches_congr hlU]; exact hm
-        have hUX : U = X := hnc B C U X hB (hsub _ (List.mem_cons_self ..)) hU hm0
-        exact absurd (hUX ▸ (ciMatches_single hm).1) hs
-      | type t =>
-        simp only [attempt] at ha
-        obtain ⟨_, s', after, hv, hd, _⟩ := typeCoercion_some ha
-        have hn : ∀ x, w ≠ .str x := by intro x hx; cases hd <;> cases hx
-        rw [loop_nonstr env post w hn] at h
-        exact absurd h (hn y)
-      | req => simp [attempt] at ha
-      | opt => simp [attempt] at ha
-      | ext i => simp [attempt] at ha
+      match c with
+      | .enum A => (match ciMatches env A s with | [m] => some m | _ => none)
+      | _ => none
 
-/-- Lemma A: the final value of the loop can no longer be improved by the constraint the loop
-started with. -/
-theorem final_fixed_head {env : Env} {chain : List Constraint} {s0 : Str}
-    (hcs : CaseStable env) (hnc : NoCycle env chain s0)
-    (c : Constraint) (post : List Constraint) (hsub : ∀ c' ∈ c :: post, c' ∈ chain)
-    (cur : Val) (hcur : (∃ x, cur = .str x ∧ env.lower x = env.lower s0) ∨ (∀ x, cur ≠ .str x)) :
-    attempt env (loop env (c :: post) cur).1 c = none := by
-  have hpost : ∀ c' ∈ post, c' ∈ chain := fun c' hc' => hsub c' (List.mem_cons_of_mem _ hc')
-  rcases hcur with ⟨x, hx, hlx⟩ | hn
-  · subst hx
+/-- "no text of the class of `s` coerces" (needed only when the chain has a TYPE[NUMBER]). -/
+def NoCoerce (env : Env) (cs : List Constraint) (s : Str) : Prop :=
+  Constraint.type NUMBER ∈ cs → ∀ t, env.lower t = env.lower s → typeCoercion env (.str t) NUMBER = none
+
+/-- Lemma S: a run that never coerces ends at `lastConst` (or where it started), and logs nothing
+when there is no such text. -/
+theorem loop_strings (env : Env) (s : Str) : ∀ (cs : List Constraint), NoCoerce env cs s →
+    ∀ a, env.lower a = env.lower s →
+      (loop env cs (.str a)).1 = .str ((lastConst env cs s).getD a) ∧
+      (lastConst env cs s = none → (loop env cs (.str a)).2 = [])
+  | [], _, a, _ => by simp [loop, lastConst]
+  | c :: cs, hnc, a, hla => by
+    have hnc' : NoCoerce env cs s := fun hm => hnc (List.mem_cons_of_mem _ hm)
+    have ih := loop_strings env s cs hnc'
     simp only [loop]
     cases c with
-    | enum B =>
-      have hB : Constraint.enum B ∈ chain := hsub _ (List.mem_cons_self ..)
-      cases ha : attempt env (.str x) (.enum B) with
+    | enum A =>
+      cases ha : attempt env (.str a) (.enum A) with
       | some r =>
         obtain ⟨w, e⟩ := r
-        simp only
         simp only [attempt] at ha
-        obtain ⟨s', U, hv, hw, _, hs, hm⟩ := enumCasefold_some ha
+        obtain ⟨s', X, hv, hw, _, _, hm⟩ := enumCasefold_some ha
         cases hv
         subst hw
-        have hm0 : ciMatches env B s0 = [U] := by rw [← ciMatches_congr hlx]; exact hm
-        rcases loop_lower env post U with ⟨y, hy, _⟩ | hn
-        · have : y = U := loop_from_match hB hm0 hnc post hpost y hy
-          subst this
-          rw [hy]
-          simp only [attempt]
-          exact enumCasefold_str_iff.mpr (Or.inl (ciMatches_single hm).1)
-        · exact attempt_nonstr env _ _ hn
+        have hm0 : ciMatches env A s = [X] := by rw [← ciMatches_congr hla]; exact hm
+        have hlX : env.lower X = env.lower s := ((ciMatches_single hm).2.1).trans hla
+        obtain ⟨h1, _⟩ := ih X hlX
+        simp only [h1, lastConst, hm0]
+        cases hlc : lastConst env cs s <;> simp
       | none =>
-        simp only
         simp only [attempt] at ha
-        rcases loop_lower env post x with ⟨y, hy, hly⟩ | hn
-        · rw [hy]
-          simp only [attempt]
-          apply enumCasefold_str_iff.mpr
-          by_cases hex : ∃ U, ciMatches env B x = [U]
-          · obtain ⟨U, hU⟩ := hex
-            rcases enumCasefold_str_iff.mp ha with hxB | hno
-            · have hxU : x = U := (ciMatches_single hU).2.2 x hxB rfl
-              subst hxU
-              have hm0 : ciMatches env B s0 = [x] := by rw [← ciMatches_congr hlx]; exact hU
-              have : y = x := loop_from_match hB hm0 hnc post hpost y hy
-              subst this
-              exact Or.inl hxB
-            · exact absurd hU (hno U)
-          · right
-            intro U hU
-            apply hex
-            exact ⟨U, by rw [← ciMatches_congr hly]; exact hU⟩
-        · exact attempt_nonstr env _ _ hn
+        obtain ⟨h1, h2⟩ := ih a hla
+        simp only [h1, lastConst]
+        cases hlc : lastConst env cs s with
+        | some m => simp
+        | none =>
+          simp only [Option.getD_none]
+          cases hms : ciMatches env A s with
+          | nil => simp [h2 hlc]
+          | cons m rest =>
+            cases rest with
+            | cons m2 rest2 => simp [h2 hlc]
+            | nil =>
+              -- a single match and no repair: `a` is that match already
+              have hma : ciMatches env A a = [m] := by rw [ciMatches_congr hla]; exact hms
+              rcases enumCasefold_str_iff.mp ha with haA | hno
+              · have : a = m := (ciMatches_single hma).2.2 a haA rfl
+                simp [this]
+              · exact absurd hma (hno m)
     | type t =>
-      cases ha : attempt env (.str x) (.type t) with
-      | some r =>
-        obtain ⟨w, e⟩ := r
-        simp only
-        simp only [attempt] at ha
-        obtain ⟨_, s', after, hv, hd, _⟩ := typeCoercion_some ha
-        have hn : ∀ z, w ≠ .str z := by intro z hz; cases hd <;> cases hz
-        rw [loop_nonstr env post w hn]
-        exact attempt_nonstr env _ _ hn
-      | none =>
-        simp only
-        rcases loop_lower env post x with ⟨y, hy, hly⟩ | hn
-        · rw [hy]
-          simp only [attempt] at ha ⊢
-          by_cases ht : t = NUMBER
-          · subst ht
-            have := hcs y x hly
-            rw [ha] at this
-            simpa using this
-          · simp [typeCoercion, NUMBER] at ht ⊢
-            intro h; exact absurd h ht
-        · exact attempt_nonstr env _ _ hn
-    | req => simp [attempt]
-    | opt => simp [attempt]
-    | ext i => simp [attempt]
-  · rw [loop_nonstr env (c :: post) cur hn]
-    exact attempt_nonstr env _ _ hn
+      have hat : attempt env (.str a) (.type t) = none := by
+        simp only [attempt]
+        by_cases ht : t = NUMBER
+        · subst ht
+          exact hnc (List.mem_cons_self ..) a hla
+        · simp [typeCoercion, NUMBER] at ht ⊢
+          intro h; exact absurd h ht
+      obtain ⟨h1, h2⟩ := ih a hla
+      simp only [hat, h1, lastConst]
+      cases hlc : lastConst env cs s with
+      | some m => simp
+      | none => simp [h2 hlc]
+    | req =>
+      obtain ⟨h1, h2⟩ := ih a hla
+      simp only [attempt, h1, lastConst]
+      cases hlc : lastConst env cs s with
+      | some m => simp
+      | none => simp [h2 hlc]
+    | opt =>
+      obtain ⟨h1, h2⟩ := ih a hla
+      simp only [attempt, h1, lastConst]
+      cases hlc : lastConst env cs s with
+      | some m => simp
+      | none => simp [h2 hlc]
+    | ext i =>
+      obtain ⟨h1, h2⟩ := ih a hla
+      simp only [attempt, h1, lastConst]
+      cases hlc : lastConst env cs s with
+      | some m => simp
+      | none => simp [h2 hlc]
 
+/-- Lemma N: a run that ends in a text met, at every TYPE[NUMBER], a text of the class that does not coerce. -/
+theorem loop_str_witness (env : Env) (s : Str) : ∀ (cs : List Constraint) (a x : Str), env.lower a = env.lower s →
+    (loop env cs (.str a)).1 = .str x → Constraint.type NUMBER ∈ cs →
+    ∃ b, env.lower b = env.lower s ∧ typeCoercion env (.str b) NUMBER = none
+  | [], _, _, _, _, hm => by cases hm
+  | c :: cs, a, x, hla, hfin, hm => by
+    simp only [loop] at hfin
+    cases ha : attempt env (.str a) c with
+    | none =>
+      rw [ha] at hfin
+      rcases List.mem_cons.mp hm with hc | hm'
+      · subst hc
+        exact ⟨a, hla, by simpa [attempt] using ha⟩
+      · exact loop_str_witness env s cs a x hla hfin hm'
+    | some r =>
+      obtain ⟨w, e⟩ := r
+      rw [ha] at hfin
+      simp only at hfin
+      rcases attempt_lower ha with ⟨y, hw, hly⟩ | hn
+      · subst hw
+        rcases List.mem_cons.mp hm with hc | hm'
+        · -- a successful attempt of TYPE[NUMBER] yields a number, not a text
+          subst hc
+          simp only [attempt] at ha
+          obtain ⟨_, s', after, _, hd, _⟩ := typeCoercion_some ha
+          cases hd
+        · exact loop_str_witness env s cs y x (hly.trans hla) hfin hm'
+      · rw [loop_nonstr env cs w hn] at hfin
+        exact absurd hfin (hn x)
 
-/-- every member of the chain leaves the loop's final value alone. -/
-theorem loop_final_fixed {env : Env} {chain : List Constraint} {s0 : Str}
-    (hcs : CaseStable env) (hnc : NoCycle env chain s0) :
-    ∀ (pre rest : List Constraint), pre ++ rest = chain →
-      ∀ cur, ((∃ x, cur = .str x ∧ env.lower x = env.lower s0) ∨ (∀ x, cur ≠ .str x)) →
-      ∀ c ∈ rest, attempt env (loop env rest cur).1 c = none
-  | pre, [], _, _, _, c, hc => by cases hc
-  | pre, d :: rest, hsplit, cur, hcur, c, hc => by
-    have hsub : ∀ c' ∈ d :: rest, c' ∈ chain := by
-      intro c' hc'; rw [← hsplit]; exact List.mem_append_right _ hc'
-    rcases List.mem_cons.mp hc with rfl | hc'
-    · exact final_fixed_head hcs hnc c rest hsub cur hcur
-    · -- the value after `d` is again in the lower-case class of `s0` (or not a text)
-      have hnext : (∃ x, (loop env [d] cur).1 = .str x ∧ env.lower x = env.lower s0) ∨ (∀ x, (loop env [d] cur).1 ≠ .str x) := by
-        rcases hcur with ⟨x, hx, hlx⟩ | hn
-        · subst hx
-          rcases loop_lower env [d] x with ⟨y, hy, hly⟩ | hn
-          · exact Or.inl ⟨y, hy, hly.trans hlx⟩
-          · exact Or.inr hn
-        · rw [loop_nonstr env [d] cur hn]; exact Or.inr hn
-      have happ := loop_append env [d] rest cur
-      simp only [List.singleton_append] at happ
-      rw [happ]
-      simp only
-      exact loop_final_fixed hcs hnc (pre ++ [d]) rest (by simp [← hsplit]) _ hnext c hc'
+theorem noCoerce_of_final_str {env : Env} (hcs : CaseStable env) {cs : List Constraint} {s x : Str}
+    (h : (loop env cs (.str s)).1 = .str x) : NoCoerce env cs s := by
+  intro hm t hlt
+  obtain ⟨b, hlb, hb⟩ := loop_str_witness env s cs s x rfl h hm
+  have := hcs t b (hlt.trans hlb.symm)
+  rw [hb] at this
+  simpa using this
 
-theorem loop_idem {env : Env} {cs : List Constraint} (hcs : CaseStable env) (v : Val)
-    (hnc : ∀ s, v = .str s → NoCycle env cs s) :
-    loop env cs (loop env cs v).1 = ((loop env cs v).1, []) := by
-  apply loop_fixed
+theorem settle_fst_of_nil {v : Val} {r : Val × List Entry} (h : (settle v r).2 = []) (hr : r.2 = [] → r.1 = v) :
+    (settle v r).1 = v := by
+  simp only [settle] at h ⊢
+  split
+  · rfl
+  · rename_i hc
+    rw [if_neg hc] at h
+    exact hr h
+
+/-- the loop followed by `settle`, applied to its own result: nothing changes, nothing is logged. -/
+theorem settled_loop_idem {env : Env} (hcs : CaseStable env) (cs : List Constraint) (v : Val) :
+    settle (settle v (loop env cs v)).1 (loop env cs (settle v (loop env cs v)).1) = ((settle v (loop env cs v)).1, []) := by
   by_cases hv : ∃ s, v = .str s
   · obtain ⟨s, rfl⟩ := hv
-    exact loop_final_fixed hcs (hnc s rfl) [] cs rfl (.str s) (Or.inl ⟨s, rfl, rfl⟩)
+    rcases loop_lower env cs s with ⟨x, hx, hlx⟩ | hn
+    · -- run 1 ends in the text x
+      have hnc := noCoerce_of_final_str hcs hx
+      obtain ⟨h1, h1n⟩ := loop_strings env s cs hnc s rfl
+      have hxeq : x = (lastConst env cs s).getD s := by rw [hx] at h1; exact Val.str.inj h1
+      -- whatever `settle` decides, the value after run 1 is the text x
+      have hr1 : (settle (.str s) (loop env cs (.str s))).1 = .str x := by
+        simp only [settle]
+        split
+        · rename_i hc
+          simp only [Bool.and_eq_true, hx, sameText, beq_iff_eq] at hc
+          rw [hc.2]
+        · exact hx
+      rw [hr1]
+      obtain ⟨h2, h2n⟩ := loop_strings env s cs hnc x hlx
+      -- run 2 ends in x again
+      have hfin2 : (loop env cs (.str x)).1 = .str x := by
+        rw [h2]
+        cases hlc : lastConst env cs s with
+        | none => simp
+        | some m => rw [hxeq, hlc]; simp
+      simp only [settle, hfin2, sameText, beq_self_eq_true, Bool.and_true]
+      cases hes : (loop env cs (.str x)).2 with
+      | nil =>
+        simp only [List.isEmpty_nil, Bool.not_true, Bool.false_eq_true, ↓reduceIte]
+        rw [Prod.ext_iff]; exact ⟨hfin2, hes⟩
+      | cons e es => simp
+    · -- run 1 ends in a non-text (a number): `settle` keeps it, run 2 does nothing
+      have hr1 : (settle (.str s) (loop env cs (.str s))).1 = (loop env cs (.str s)).1 := by
+        simp only [settle]
+        split
+        · rename_i hc
+          simp only [Bool.and_eq_true] at hc
+          cases hw : (loop env cs (.str s)).1 <;> simp_all [sameText]
+        · rfl
+      rw [hr1, loop_nonstr env cs _ hn]
+      simp [settle]
   · have hn : ∀ s, v ≠ .str s := fun s hs => hv ⟨s, hs⟩
-    intro c _
     rw [loop_nonstr env cs v hn]
-    exact attempt_nonstr env v c hn
+    simp [settle, loop_nonstr env cs v hn]
 
 theorem attempt_kind {env : Env} {v w : Val} {c : Constraint} {e : Entry} (h : attempt env v c = some (w, e)) :
     w.isZone = false ∧ w.isNone = false := by
@@ -517,9 +541,16 @@ theorem loop_kind (env : Env) : ∀ (cs : List Constraint) (v : Val), v.isZone =
       obtain ⟨hz', hn'⟩ := attempt_kind ha
       exact loop_kind env cs w hz' hn'
 
+theorem settle_kind {v : Val} {r : Val × List Entry} (hz : v.isZone = false) (hn : v.isNone = false)
+    (hrz : r.1.isZone = false) (hrn : r.1.isNone = false) :
+    (settle v r).1.isZone = false ∧ (settle v r).1.isNone = false := by
+  simp only [settle]
+  split
+  · exact ⟨hz, hn⟩
+  · exact ⟨hrz, hrn⟩
+
 /-- `repair_value` applied to its own result changes nothing and logs nothing. -/
-theorem repairValue_idem {env : Env} (hcs : CaseStable env) (sch : Schema) (k : Str) (v : Val)
-    (hnc : ∀ s, v = .str s → NoCycle env (chainOf sch k) s) :
+theorem repairValue_idem {env : Env} (hcs : CaseStable env) (sch : Schema) (k : Str) (v : Val) :
     repairValue env (repairValue env v (sch.get k) true).1 (sch.get k) true = ((repairValue env v (sch.get k) true).1, []) := by
   cases hg : sch.get k with
   | none => simp [repairValue]
@@ -532,7 +563,6 @@ theorem repairValue_idem {env : Env} (hcs : CaseStable env) (sch : Schema) (k : 
       cases ch with
       | none => by_cases hz : v.isZone <;> simp [repairValue, hz]
       | some ch =>
-        have hchain : chainOf sch k = ch.cs := by simp [chainOf, hg]
         by_cases hz : v.isZone
         · simp [repairValue, hz]
         · by_cases he : ch.cs.isEmpty
@@ -541,10 +571,10 @@ theorem repairValue_idem {env : Env} (hcs : CaseStable env) (sch : Schema) (k : 
             · simp [repairValue, hz, he, hn]
             · have hz' : v.isZone = false := by simpa using hz
               have hn' : v.isNone = false := by simpa using hn
-              obtain ⟨hz2, hn2⟩ := loop_kind env ch.cs v hz' hn'
-              have hidem := loop_idem (cs := ch.cs) hcs v (by rw [← hchain]; exact hnc)
+              obtain ⟨hz1, hn1⟩ := loop_kind env ch.cs v hz' hn'
+              obtain ⟨hz2, hn2⟩ := settle_kind (r := loop env ch.cs v) hz' hn' hz1 hn1
+              have hidem := settled_loop_idem hcs ch.cs v
               simp [repairValue, hz', hn', he, hz2, hn2, hidem]
-
 
 theorem step_notZone {env : Env} {chain : List Constraint} {c : Constraint} {v w : Val} {e : Entry}
     (h : Step env chain c v w e) : w.isZone = false := by
@@ -558,8 +588,7 @@ theorem steps_notZone {env : Env} {chain : List Constraint} {v w : Val} {es : Li
   | nil => exact hz
   | cons hstep _ ih => exact ih (step_notZone hstep)
 
-theorem idem_assign {env : Env} (hcs : CaseStable env) (sch : Schema) (p : Pos) (k : Str) (v : Val)
-    (hnc : ∀ s, v = .str s → NoCycle env (chainOf sch k) s) :
+theorem idem_assign {env : Env} (hcs : CaseStable env) (sch : Schema) (p : Pos) (k : Str) (v : Val) :
     repairNode env sch (repairNode env sch (.assign p k v)).1 = ((repairNode env sch (.assign p k v)).1, []) := by
   by_cases hz : v.isZone
   · simp [repairNode, hz]
@@ -567,46 +596,39 @@ theorem idem_assign {env : Env} (hcs : CaseStable env) (sch : Schema) (p : Pos) 
     | none => simp [repairNode, hz, hg]
     | some fd =>
       have hz' : v.isZone = false := by simpa using hz
-      have hid := repairValue_idem hcs sch k v hnc
+      have hid := repairValue_idem hcs sch k v
       rw [hg] at hid
       have hnil := repairValue_nil_eq env sch k v
       rw [hg] at hnil
-      -- the value stored by the first run is the repaired value in every case
       have hval : (if (repairValue env v (some fd) true).2.isEmpty then v else (repairValue env v (some fd) true).1)
           = (repairValue env v (some fd) true).1 := by
         split
         · rename_i h
           exact (hnil (by simpa using h)).symm
         · rfl
-      -- it is not a zone
       have hz2 : (repairValue env v (some fd) true).1.isZone = false := by
         have hs := repairValue_steps env sch k v
         rw [hg] at hs
         exact steps_notZone hs hz'
       simp only [repairNode, hz', Bool.false_eq_true, ↓reduceIte, hg, hval, hz2, hid, List.isEmpty_nil]
 
-
 mutual
-theorem idem_node {env : Env} (hcs : CaseStable env) (sch : Schema) : ∀ n : Node, DocNoCycle env sch n.leaves →
+theorem idem_node {env : Env} (hcs : CaseStable env) (sch : Schema) : ∀ n : Node,
     repairNode env sch (repairNode env sch n).1 = ((repairNode env sch n).1, [])
-  | .assign p k v, h => by
-    apply idem_assign hcs sch p k v
-    intro s hs
-    subst hs
-    exact h k s (by simp [Node.leaves])
-  | .block p k t cs, h => by
-    have := idem_nodes hcs sch cs (by simpa [Node.leaves] using h)
+  | .assign p k v => idem_assign hcs sch p k v
+  | .block p k t cs => by
+    have := idem_nodes hcs sch cs
     simp only [repairNode, this]
-  | .sect p i k a cs, h => by
-    have := idem_nodes hcs sch cs (by simpa [Node.leaves] using h)
+  | .sect p i k a cs => by
+    have := idem_nodes hcs sch cs
     simp only [repairNode, this]
-  | .other p id, _ => by simp [repairNode]
-theorem idem_nodes {env : Env} (hcs : CaseStable env) (sch : Schema) : ∀ ns : List Node, DocNoCycle env sch (Node.leavesList ns) →
+  | .other p id => by simp [repairNode]
+theorem idem_nodes {env : Env} (hcs : CaseStable env) (sch : Schema) : ∀ ns : List Node,
     repairNodes env sch (repairNodes env sch ns).1 = ((repairNodes env sch ns).1, [])
-  | [], _ => by simp [repairNodes]
-  | n :: ns, h => by
-    have h1 := idem_node hcs sch n (fun k s hm => h k s (by simp [Node.leavesList, hm]))
-    have h2 := idem_nodes hcs sch ns (fun k s hm => h k s (by simp [Node.leavesList, hm]))
+  | [] => by simp [repairNodes]
+  | n :: ns => by
+    have h1 := idem_node hcs sch n
+    have h2 := idem_nodes hcs sch ns
     simp only [repairNodes, h1, h2, List.append_nil]
 end
 
